@@ -93,7 +93,10 @@ Record Inv (pend : list N) (s : cstate) : Prop := {
   inv_jumps : forall k i z, nth_error (cs_code s) k = Some i -> jump_target i = Some z ->
                             target_ok (cs_code s) z \/ In (bytes (skipn (S k) (cs_code s))) pend;
   inv_labels : forall h pos, In (h, pos) (cs_labels s) -> is_bound (cs_code s) pos;
-  inv_trace : forall a l, In (a, l) (cs_trace s) -> exists b, is_bound (cs_code s) b /\ a = b mod two32
+  inv_trace : forall a l, In (a, l) (cs_trace s) -> exists b, is_bound (cs_code s) b /\ a = b mod two32;
+  (* every instruction has a trace entry *)
+  inv_traced : forall k i, nth_error (cs_code s) k = Some i ->
+                           exists l, In (bytes (skipn (S k) (cs_code s)) mod two32, l) (cs_trace s)
 }.
 
 Definition mono (s s' : cstate) : Prop :=
@@ -142,7 +145,7 @@ Proof. repeat split. Qed.
 
 Lemma Inv_same p s s' : same s s' -> Inv p s -> Inv p s'.
 Proof.
-  intros (Hc & Hp & Hl & Ht) [H1 H2 H3 H4]. constructor; rewrite ?Hc, ?Hp, ?Hl, ?Ht; auto.
+  intros (Hc & Hp & Hl & Ht) [H1 H2 H3 H4 H5]. constructor; rewrite ?Hc, ?Hp, ?Hl, ?Ht; auto.
 Qed.
 
 Lemma spec_frame {A} bs p (m : M A) : frame m -> spec bs p p m.
@@ -232,38 +235,41 @@ Proof.
 Qed.
 
 (* ---- operations on the code ---- *)
-Lemma Inv_push_raw p s i :
-  Inv p s -> (forall z, jump_target i = Some z -> target_ok (cs_code s) z \/ In (cs_pc s) p) ->
-  Inv p (set_code (i :: cs_code s) (cs_pc s + spanN i) s).
+(* the state after push_instr *)
+Definition pushed (s : cstate) (i : instr) : cstate :=
+  set_code (i :: cs_code (set_trace ((cs_pc s mod two32, cur_loc s) :: cs_trace s) s))
+           (cs_pc (set_trace ((cs_pc s mod two32, cur_loc s) :: cs_trace s) s) + N.of_nat (instr_span i))
+           (set_trace ((cs_pc s mod two32, cur_loc s) :: cs_trace s) s).
+
+Lemma push_instr_eq i s : push_instr i s = ROk tt (pushed s i).
+Proof. reflexivity. Qed.
+
+Lemma Inv_pushed p p' s i :
+  Inv p s -> (forall x, In x p -> In x p') ->
+  (forall z, jump_target i = Some z -> target_ok (cs_code s) z \/ In (cs_pc s) p') ->
+  Inv p' (pushed s i).
 Proof.
-  intros [H1 H2 H3 H4] Hj. constructor; cbn [cs_code cs_pc cs_labels cs_trace set_code].
-  - cbn [bytes]. rewrite H1. lia.
+  intros [H1 H2 H3 H4 H5] Hsub Hj. unfold pushed.
+  constructor; cbn [cs_code cs_pc cs_labels cs_trace set_code set_trace].
+  - cbn [bytes]. rewrite H1. unfold spanN. lia.
   - intros [|k] i' z Hn Hz; cbn in Hn.
     + injection Hn as <-. cbn [skipn]. destruct (Hj z Hz) as [[b [E Hb]]|Hin].
       * left. exists b. split; auto. apply is_bound_cons; auto.
       * right. rewrite <- H1. exact Hin.
     + cbn [skipn]. destruct (H2 k i' z Hn Hz) as [[b [E Hb]]|Hin].
       * left. exists b. split; auto. apply is_bound_cons; auto.
-      * right. destruct k; exact Hin.
+      * right. apply Hsub. destruct k; exact Hin.
   - intros h pos Hin. apply is_bound_cons. eauto.
-  - intros a l Hin. destruct (H4 a l Hin) as [b [Hb E]]. exists b. split; auto. apply is_bound_cons; auto.
+  - intros a l [E|Hin].
+    + injection E as <- _. exists (cs_pc s). split; auto. apply is_bound_cons. rewrite H1. apply is_bound_end.
+    + destruct (H4 a l Hin) as [b [Hb E]]. exists b. split; auto. apply is_bound_cons; auto.
+  - intros [|k] i' Hn; cbn in Hn.
+    + cbn [skipn]. exists (cur_loc s). left. rewrite H1. reflexivity.
+    + cbn [skipn]. destruct (H5 k i' Hn) as [l Hl]. exists l. right. destruct k; exact Hl.
 Qed.
 
-Lemma mono_push s i pc : mono s (set_code (i :: cs_code s) pc s).
+Lemma mono_pushed s i : mono s (pushed s i).
 Proof. intros b Hb. cbn. apply is_bound_cons; auto. Qed.
-
-Lemma spec_push_raw bs p i : jump_target i = None -> spec bs p p (push_raw i).
-Proof.
-  intros Hn s HI _. unfold push_raw. cbn. split; [|apply mono_push].
-  apply Inv_push_raw; auto. intros z Hz. congruence.
-Qed.
-
-Lemma Inv_set_trace p s : Inv p s -> Inv p (set_trace ((cs_pc s mod two32, cur_loc s) :: cs_trace s) s).
-Proof.
-  intros [H1 H2 H3 H4]. constructor; cbn [cs_code cs_pc cs_labels cs_trace set_trace]; auto.
-  intros a l [E|Hin]; [|eauto]. injection E as <- _. exists (cs_pc s). split; auto.
-  rewrite H1. apply is_bound_end.
-Qed.
 
 Lemma spec_push_instr_gen bs p p' i :
   (forall s, Inv p s -> bounds_in bs s ->
@@ -271,13 +277,8 @@ Lemma spec_push_instr_gen bs p p' i :
   (forall x, In x p -> In x p') ->
   spec bs p p' (push_instr i).
 Proof.
-  intros Hj Hsub s HI Hb. unfold push_instr, push_raw. cbn.
-  split; [|intros b Hbb; cbn; apply is_bound_cons; auto].
-  pose proof (Inv_set_trace p s HI) as HI'.
-  assert (HIw : Inv p' (set_trace ((cs_pc s mod two32, cur_loc s) :: cs_trace s) s)).
-  { destruct HI' as [H1 H2 H3 H4]. constructor; auto.
-    intros k i0 z Hn Hz. destruct (H2 k i0 z Hn Hz); auto. }
-  apply (Inv_push_raw p' _ i HIw). intros z Hz. cbn. apply (Hj s HI Hb z Hz).
+  intros Hj Hsub s HI Hb. rewrite push_instr_eq. split; [|apply mono_pushed].
+  apply (Inv_pushed p p' s i HI Hsub). apply (Hj s HI Hb).
 Qed.
 
 Lemma spec_push_instr bs p i : jump_target i = None -> spec bs p p (push_instr i).
@@ -310,19 +311,15 @@ Lemma spec_pending_goto {A} bs p p' z (k : N -> M A) :
   spec bs p p' (bind get_pc (fun q => bind (push_instr (IGoto z)) (fun _ => k q))).
 Proof.
   intros H s HI Hb. unfold bind at 1. unfold get_pc.
-  (* push_instr at this very state: its position is cs_pc s *)
-  unfold bind. unfold push_instr, push_raw.
-  set (s1 := set_code _ _ _).
-  assert (HI1 : Inv (cs_pc s :: p) s1).
-  { pose proof (Inv_set_trace p s HI) as HI'.
-    assert (HIw : Inv (cs_pc s :: p) (set_trace ((cs_pc s mod two32, cur_loc s) :: cs_trace s) s)).
-    { destruct HI' as [H1 H2 H3 H4]. constructor; auto.
-      intros k0 i0 z0 Hn Hz. destruct (H2 k0 i0 z0 Hn Hz); auto. right. right. auto. }
-    apply (Inv_push_raw _ _ (IGoto z) HIw). intros z0 _. right. left. reflexivity. }
-  assert (Hm1 : mono s s1) by (intros b Hbb; cbn; apply is_bound_cons; auto).
-  assert (Hb1 : bounds_in bs s1) by (intros b Hin; apply Hm1, Hb, Hin).
-  specialize (H (cs_pc s) s1 HI1 Hb1).
-  destruct (k (cs_pc s) s1) as [a s2| | |]; auto. destruct H as [HI2 Hm2].
+  unfold bind. rewrite push_instr_eq.
+  assert (HI1 : Inv (cs_pc s :: p) (pushed s (IGoto z))).
+  { apply (Inv_pushed p (cs_pc s :: p) s (IGoto z) HI).
+    - intros x Hx. right. exact Hx.
+    - intros z0 _. right. left. reflexivity. }
+  assert (Hm1 : mono s (pushed s (IGoto z))) by apply mono_pushed.
+  assert (Hb1 : bounds_in bs (pushed s (IGoto z))) by (intros b Hin; apply Hm1, Hb, Hin).
+  specialize (H (cs_pc s) (pushed s (IGoto z)) HI1 Hb1).
+  destruct (k (cs_pc s) (pushed s (IGoto z))) as [a s2| | |]; auto. destruct H as [HI2 Hm2].
   split; auto. eapply mono_trans; eauto.
 Qed.
 
@@ -368,7 +365,7 @@ Lemma spec_patch bs p q : spec bs (q :: p) p (patch_jump_here q).
 Proof.
   intros s HI _. unfold patch_jump_here.
   destruct (patch_code (cs_code s) (cs_pc s) q (u32_to_i32 (cs_pc s))) as [code'|] eqn:E; [|exact I].
-  destruct HI as [H1 H2 H3 H4].
+  destruct HI as [H1 H2 H3 H4 H5].
   destruct (patch_code_spec _ _ _ _ _ E H1) as (k & j & j' & Hn & Hj & Hc & Hp).
   pose proof (set_jump_target_span _ _ _ Hj) as Hspan.
   pose proof (map_span_upd _ _ _ _ Hn Hspan) as Hspans. rewrite <- Hc in Hspans.
@@ -391,11 +388,15 @@ Proof.
       * right. exact Hin.
   - intros h pos Hin. apply Hb. eauto.
   - intros a l Hin. destruct (H4 a l Hin) as [b [Hbb Ea]]. exists b. split; auto.
+  - intros k0 i0 Hn0. rewrite Hbytes.
+    destruct (Nat.eq_dec k k0) as [<-|Hne].
+    + apply (H5 k j Hn).
+    + rewrite Hc, nth_error_upd_other in Hn0 by exact Hne. apply (H5 k0 i0 Hn0).
 Qed.
 
 Lemma Inv_weaken_pend p q s : Inv p s -> Inv (q :: p) s.
 Proof.
-  intros [H1 H2 H3 H4]. constructor; auto.
+  intros [H1 H2 H3 H4 H5]. constructor; auto.
   intros k i z Hn Hz. destruct (H2 k i z Hn Hz); auto. right. right. auto.
 Qed.
 
@@ -418,7 +419,7 @@ Lemma spec_label_insert bs p h : spec bs p p (label_insert_here h).
 Proof.
   intros s HI _. unfold label_insert_here.
   destruct ((two32 <=? cs_pc s) || (h =? 0)); [exact I|].
-  split; [|intros b Hb; exact Hb]. destruct HI as [H1 H2 H3 H4]. constructor; auto.
+  split; [|intros b Hb; exact Hb]. destruct HI as [H1 H2 H3 H4 H5]. constructor; auto.
   cbn [cs_labels set_labels cs_code]. intros x y Hin. apply in_nm_insert in Hin.
   destruct Hin as [[-> ->]|Hin]; [rewrite H1; apply is_bound_end | eauto].
 Qed.
@@ -429,7 +430,7 @@ Proof.
   destruct (two32 <=? cs_pc s); [exact I|].
   destruct (h =? 0); [split; [exact HI | apply mono_refl]|].
   destruct (nm_find h (cs_labels s)); [split; [exact HI | apply mono_refl]|].
-  split; [|intros b Hb; exact Hb]. destruct HI as [H1 H2 H3 H4]. constructor; auto.
+  split; [|intros b Hb; exact Hb]. destruct HI as [H1 H2 H3 H4 H5]. constructor; auto.
   cbn [cs_labels set_labels cs_code]. intros x y Hin. apply in_nm_insert in Hin.
   destruct Hin as [[-> ->]|Hin]; [rewrite H1; apply is_bound_end | eauto].
 Qed.
@@ -794,6 +795,7 @@ Proof.
   - intros [|k] i z H; discriminate.
   - intros h pos [].
   - intros a l [].
+  - intros [|k] i H; discriminate.
 Qed.
 
 (* the state just before the final Exit satisfies the invariant with nothing pending *)
@@ -872,7 +874,28 @@ Definition wf_partial (B : compiled) (is : list instr) : Prop :=
   (forall i z, In i is -> jump_target i = Some z ->
                (0 <= z)%Z /\ In (Z.to_nat z) (map fst (positions is))) /\
   (forall h pos, In (h, pos) (p_labels B) -> In (N.to_nat pos) (map fst (positions is))) /\
-  (forall a l, In (a, l) (p_trace B) -> In (N.to_nat a) (map fst (positions is))).
+  (forall a l, In (a, l) (p_trace B) -> In (N.to_nat a) (map fst (positions is))) /\
+  (* every instruction has a trace entry *)
+  (forall p i, In (p, i) (positions is) -> exists l, In (N.of_nat p, l) (p_trace B)).
+
+Lemma positions_snoc l x : forall p,
+  positions_from p (l ++ [x]) = positions_from p l ++ [((p + nbytes l)%nat, x)].
+Proof.
+  induction l as [|i r IH]; intros p; cbn [app positions_from nbytes].
+  - f_equal. f_equal. lia.
+  - f_equal. rewrite IH. f_equal. f_equal. f_equal. lia.
+Qed.
+
+Lemma positions_rev_index code : forall p i,
+  In (p, i) (positions (rev code)) ->
+  exists k, nth_error code k = Some i /\ p = nbytes (skipn (S k) code).
+Proof.
+  induction code as [|x c IH]; intros p i H; [destruct H|].
+  unfold positions in H. cbn [rev] in H. rewrite positions_snoc in H. apply in_app_or in H.
+  destruct H as [H|[H|[]]].
+  - destruct (IH p i H) as (k & Hk & Hp). exists (S k). split; auto.
+  - injection H as <- <-. exists 0%nat. split; [reflexivity|]. cbn [skipn]. rewrite nbytes_rev. reflexivity.
+Qed.
 
 Lemma wf_partial_core fs d s :
   compile_ir fs (init_state d) = ROk tt s ->
@@ -884,6 +907,7 @@ Proof.
   unfold finish in *. cbn [p_bytecode p_labels p_trace] in *.
   set (code0 := cs_code s0) in *.
   rewrite Hcode.
+  assert (Hpc0 : cs_pc s0 = bytes code0) by apply (inv_pc _ _ HI).
   assert (Hsmall : (bytes code0 < 2147483648)%N).
   { rewrite Hcode, encode_length, nbytes_rev in Hlen. cbn [nbytes] in Hlen.
     rewrite bytes_nbytes. lia. }
@@ -902,14 +926,24 @@ Proof.
     split; [lia|]. rewrite <- Z_N_nat, N2Z.id. apply Hstart, Hb. }
   split.
   { intros h pos Hin. rewrite Hlab in Hin. apply Hstart. apply (inv_labels _ _ HI h pos Hin). }
-  intros a l Hin. apply in_rev in Hin. rewrite Htr in Hin.
-  assert (Hpc : cs_pc s0 = bytes code0) by apply (inv_pc _ _ HI).
-  destruct Hin as [Ha|Hin].
-  - injection Ha as <- _. rewrite Hpc. unfold two32. rewrite N.mod_small by lia.
-    apply Hstart, is_bound_end.
-  - destruct (inv_trace _ _ HI a l Hin) as [b [Hb ->]].
-    pose proof (is_bound_le _ _ Hb) as Hle. fold code0 in Hle.
-    unfold two32. rewrite N.mod_small by lia. apply Hstart, Hb.
+  split.
+  { intros a l Hin. apply in_rev in Hin. rewrite Htr in Hin.
+    destruct Hin as [Ha|Hin].
+    - injection Ha as <- _. rewrite Hpc0. unfold two32. rewrite N.mod_small by lia.
+      apply Hstart, is_bound_end.
+    - destruct (inv_trace _ _ HI a l Hin) as [b [Hb ->]].
+      pose proof (is_bound_le _ _ Hb) as Hle. fold code0 in Hle.
+      unfold two32. rewrite N.mod_small by lia. apply Hstart, Hb. }
+  intros p i Hin. apply positions_rev_index in Hin. destruct Hin as (k & Hk & ->).
+  destruct k as [|k]; cbn in Hk.
+  - injection Hk as <-. cbn [skipn]. exists l0. apply in_rev. rewrite rev_involutive, Htr. left.
+    rewrite Hpc0, bytes_nbytes. unfold two32. rewrite N.mod_small; [reflexivity|].
+    rewrite <- bytes_nbytes. lia.
+  - cbn [skipn]. destruct (inv_traced _ _ HI k i Hk) as [l Hl]. exists l.
+    apply in_rev. rewrite rev_involutive, Htr. right.
+    fold code0 in Hl. rewrite <- bytes_nbytes.
+    pose proof (bytes_skipn_le (S k) code0) as Hle.
+    unfold two32 in Hl. rewrite N.mod_small in Hl by lia. exact Hl.
 Qed.
 
 Lemma compile_ok_inv M o B :
